@@ -2,16 +2,17 @@
    procedure table for which every hypothesis is discharged, and what the theorem then says about its image.
 
    The program (X source; XConstProp.front only turns put(..) into the system call 1):
-       val put = 1; var g;
+       val put = 1; var g; array a[4];
        func fd(val k) is if k = 0 then return 7 else return fd(k - 1)
-       proc cd(val n) is var t;
-       { t := n + 48; put(t, 0); g := g + n; if n = 0 then skip else cd(n - 1) }
-       proc main() is { g := 0; cd(3); g := fd(g) }
-   Its image is laid out here as xcmp does (BR _start; DATA 199997; g; _start: LDAP _exit; BR main; _exit: ..; the
+       proc cd(val n, array b) is var t;
+       { t := n + 48; put(t, 0); g := g + n; b[n] := t; if n = 0 then skip else cd(n - 1, b) }
+       proc main() is { g := 0; cd(3, a); g := fd(g); g := g + a[2] }
+   (the global array a is passed by address to the array formal b, which cd assigns through and hands on to its
+   recursive call).  Its image is laid out here as xcmp does (BR _start; DATA 199993; g; a's word; _start: LDAP _exit; BR main; _exit: ..; the
    procedures), from the model's LOWERED code (prologue ++ cs body ++ exit label ++ epilogue, before the
    peepholes -- the code the theorems speak of), by the assembler model AsmLayout.assemble_directives.  All
    hypotheses about the image are established by computation through the ISA's own decoder (XCodegenImage). *)
-From Coq Require Import ZArith List String Bool Lia.
+From Coq Require Import ZArith List String Bool Lia FMapPositive.
 From HexVerif Require Import WMap Isa XAst XSem XSemProps XConstProp AsmModel AsmLayout AsmSpec AsmSpecProofs
      XCodegenIsa XCodegenInv XCodegenExpr XCodegenStmt XCodegenCall XCodegenImage XCodegenProgram.
 Import ListNotations.
@@ -19,30 +20,33 @@ Local Open Scope string_scope.
 Local Open Scope Z_scope.
 
 Definition demo_src : program :=
-  {| globals := [DVal "put" (ENum 1); DVar "g"];
+  {| globals := [DVal "put" (ENum 1); DVar "g"; DArray "a" (ENum 4)];
      procs := [ {| is_func := true; pname := "fd"; formals := [FVal "k"]; locals := [];
                    body := SIf (EBin Eq (EVar "k") (ENum 0)) (SReturn (ENum 7))
                                (SReturn (ECall "fd" [EBin Minus (EVar "k") (ENum 1)])) |};
-                {| is_func := false; pname := "cd"; formals := [FVal "n"]; locals := [DVar "t"];
+                {| is_func := false; pname := "cd"; formals := [FVal "n"; FArray "b"]; locals := [DVar "t"];
                    body := SSeq [SAssign "t" (EBin Plus (EVar "n") (ENum 48));
                                  SCall "put" [EVar "t"; ENum 0];
                                  SAssign "g" (EBin Plus (EVar "g") (EVar "n"));
-                                 SIf (EBin Eq (EVar "n") (ENum 0)) SSkip (SCall "cd" [EBin Minus (EVar "n") (ENum 1)])] |};
+                                 SAssignSub "b" (EVar "n") (EVar "t");
+                                 SIf (EBin Eq (EVar "n") (ENum 0)) SSkip (SCall "cd" [EBin Minus (EVar "n") (ENum 1); EVar "b"])] |};
                 {| is_func := false; pname := "main"; formals := []; locals := [];
-                   body := SSeq [SAssign "g" (ENum 0); SCall "cd" [ENum 3]; SAssign "g" (ECall "fd" [EVar "g"])] |} ] |}.
+                   body := SSeq [SAssign "g" (ENum 0); SCall "cd" [ENum 3; EVar "a"]; SAssign "g" (ECall "fd" [EVar "g"]);
+                   SAssign "g" (EBin Plus (EVar "g") (ESub "a" (ENum 2)))] |} ] |}.
 
 Definition p_fd : proc :=
   {| is_func := true; pname := "fd"; formals := [FVal "k"]; locals := [];
      body := SIf (EBin Eq (EVar "k") (ENum 0)) (SReturn (ENum 7)) (SReturn (ECall "fd" [EBin Minus (EVar "k") (ENum 1)])) |}.
 Definition p_cd : proc :=
-  {| is_func := false; pname := "cd"; formals := [FVal "n"]; locals := [DVar "t"];
+  {| is_func := false; pname := "cd"; formals := [FVal "n"; FArray "b"]; locals := [DVar "t"];
      body := SSeq [SAssign "t" (EBin Plus (EVar "n") (ENum 48)); SSys 1 [EVar "t"; ENum 0];
-                   SAssign "g" (EBin Plus (EVar "g") (EVar "n"));
-                   SIf (EBin Eq (EVar "n") (ENum 0)) SSkip (SCall "cd" [EBin Minus (EVar "n") (ENum 1)])] |}.
+                   SAssign "g" (EBin Plus (EVar "g") (EVar "n")); SAssignSub "b" (EVar "n") (EVar "t");
+                   SIf (EBin Eq (EVar "n") (ENum 0)) SSkip (SCall "cd" [EBin Minus (EVar "n") (ENum 1); EVar "b"])] |}.
 Definition p_main : proc :=
   {| is_func := false; pname := "main"; formals := []; locals := [];
-     body := SSeq [SAssign "g" (ENum 0); SCall "cd" [ENum 3]; SAssign "g" (ECall "fd" [EVar "g"])] |}.
-Definition demo : program := {| globals := [DVal "put" (ENum 1); DVar "g"]; procs := [p_fd; p_cd; p_main] |}.
+     body := SSeq [SAssign "g" (ENum 0); SCall "cd" [ENum 3; EVar "a"]; SAssign "g" (ECall "fd" [EVar "g"]);
+                   SAssign "g" (EBin Plus (EVar "g") (ESub "a" (ENum 2)))] |}.
+Definition demo : program := {| globals := [DVal "put" (ENum 1); DVar "g"; DArray "a" (ENum 4)]; procs := [p_fd; p_cd; p_main] |}.
 
 (* the program the code generator reads *)
 Lemma demo_front : front demo_src = COk demo.
@@ -53,16 +57,19 @@ Proof. vm_compute. reflexivity. Qed.
 
 Definition demo_ge : genv := {| g_vals := [("put", 1)]; g_procs := [p_fd; p_cd; p_main]; g_maxdepth := 10 |}.
 Definition demo_gaddr (x : string) : option Z := if String.eqb x "g" then Some 2 else None.
+Definition demo_aaddr (x : string) : option Z := if String.eqb x "a" then Some 3 else None.     (* the word of the array's name *)
+Definition demo_abase (x : string) : Z := if String.eqb x "a" then 199996 else 0.               (* its cells: 199996 .. 199999 *)
+Definition demo_alen (x : string) : Z := if String.eqb x "a" then 4 else 0.
 Definition demo_pool (v : Z) : option Z := None.
 Definition demo_pinfo (x : string) : option pframe :=
   if String.eqb x "cd" then Some {| pf_entry := 100; pf_isfunc := false |}
   else if String.eqb x "main" then Some {| pf_entry := 101; pf_isfunc := false |}
   else if String.eqb x "fd" then Some {| pf_entry := 102; pf_isfunc := true |} else None.
-Definition L_cd : playout := {| pl_size := 5; pl_nslots := 1; pl_og := 4; pl_exit := 0; pl_n0 := 1 |}.
-Definition L_main : playout := {| pl_size := 3; pl_nslots := 0; pl_og := 3; pl_exit := 20; pl_n0 := 21 |}.
+Definition L_cd : playout := {| pl_size := 6; pl_nslots := 2; pl_og := 4; pl_exit := 0; pl_n0 := 1 |}.
+Definition L_main : playout := {| pl_size := 4; pl_nslots := 1; pl_og := 3; pl_exit := 20; pl_n0 := 21 |}.
 Definition L_fd : playout := {| pl_size := 3; pl_nslots := 0; pl_og := 3; pl_exit := 40; pl_n0 := 41 |}.
 Definition body_code (p : proc) (L : playout) : option (list instr * label) :=
-  cs demo_pinfo (frame_venv demo_gaddr p (pl_size L)) demo_pool (pl_size L) (pl_nslots L) (first_temp p) (pl_og L)
+  cs demo_pinfo (frame_venv demo_gaddr p (pl_size L)) demo_pool (pl_size L) (pl_nslots L) (frame_aenv demo_aaddr p (pl_size L)) (first_temp p) (pl_og L)
      (pl_exit L) (body p) (pl_n0 L).
 Definition code_of (p : proc) (L : playout) : list instr :=
   match body_code p L with Some (bc, _) => pro (pl_size L) ++ bc ++ epi_of (is_func p) (pl_exit L) (pl_size L) | None => [] end.
@@ -72,43 +79,48 @@ Definition code_of (p : proc) (L : playout) : list instr :=
 (* X-SOURCE-BEGIN
 val put = 1;
 var g;
+array a[4];
 func fd(val k) is
   if k = 0 then return 7 else return fd(k - 1)
-proc cd(val n) is
+proc cd(val n, array b) is
   var t;
 { t := n + 48;
   put(t, 0);
   g := g + n;
-  if n = 0 then skip else cd(n - 1)
+  b[n] := t;
+  if n = 0 then skip else cd(n - 1, b)
 }
 proc main() is
 { g := 0;
-  cd(3);
-  g := fd(g)
+  cd(3, a);
+  g := fd(g);
+  g := g + a[2]
 }
 X-SOURCE-END *)
-Example demo_cproc_cd : cproc demo_pinfo demo_gaddr demo_pool p_cd 5 4 = Some
+Example demo_cproc_cd : cproc demo_pinfo demo_gaddr demo_aaddr demo_pool p_cd 6 4 = Some
   (* XCMP-LISTING cd *)
-  [LDBM 1; STAI 0; LDAC (-5); ADD; STAM 1; LDAI 6; LDBC 48; ADD; LDBM 1; STAI 4; LDBM 1; STAI 2; LDAC 0; LDBM 1;
-   STAI 3; LDAC 1; SVC; LDAM 1; LDAI 1; LDAM 2; LDBM 1; LDBI 6; ADD; STAM 2; LDAM 1; LDAI 6; BRZ 3; LDAC 0; BR 4;
-   LABEL 3; LDAC 1; LABEL 4; BRZ 1; BR 2; LABEL 1; LDAM 1; LDAI 6; LDBC 1; SUB; LDBM 1; STAI 1; LDAP 5; BR 100;
-   LABEL 5; LABEL 2; LABEL 0; LDBM 1; LDAC 5; ADD; STAM 1; LDBI 5; BRB].
+  [LDBM 1; STAI 0; LDAC (-6); ADD; STAM 1; LDAI 7; LDBC 48; ADD; LDBM 1; STAI 5; LDBM 1; STAI 2; LDAC 0; LDBM 1; STAI
+   3; LDAC 1; SVC; LDAM 1; LDAI 1; LDAM 2; LDBM 1; LDBI 7; ADD; STAM 2; LDAM 1; LDAI 7; LDBM 1; LDBI 8; ADD; LDBM 1;
+   STAI 4; LDAM 1; LDAI 5; LDBM 1; LDBI 4; STAI 0; LDAM 1; LDAI 7; BRZ 3; LDAC 0; BR 4; LABEL 3; LDAC 1; LABEL 4; BRZ
+   1; BR 2; LABEL 1; LDAM 1; LDAI 7; LDBC 1; SUB; LDBM 1; STAI 1; LDAM 1; LDAI 8; LDBM 1; STAI 2; LDAP 5; BR 100;
+   LABEL 5; LABEL 2; LABEL 0; LDBM 1; LDAC 6; ADD; STAM 1; LDBI 6; BRB].
 Proof. vm_compute. reflexivity. Qed.
-Example demo_cproc_main : cproc demo_pinfo demo_gaddr demo_pool p_main 3 3 = Some
+Example demo_cproc_main : cproc demo_pinfo demo_gaddr demo_aaddr demo_pool p_main 4 3 = Some
   (* XCMP-LISTING main *)
-  [LDBM 1; STAI 0; LDAC (-3); ADD; STAM 1; LDAC 0; STAM 2; LDAC 3; LDBM 1; STAI 1; LDAP 1; BR 100; LABEL 1; LDAM 2;
-   LDBM 1; STAI 2; LDAP 2; BR 102; LABEL 2; LDAM 1; LDAI 1; STAM 2; LABEL 0; LDBM 1; LDAC 3; ADD; STAM 1; LDBI 3; BRB].
+  [LDBM 1; STAI 0; LDAC (-4); ADD; STAM 1; LDAC 0; STAM 2; LDAC 3; LDBM 1; STAI 1; LDAM 3; LDBM 1; STAI 2; LDAP 1; BR
+   100; LABEL 1; LDAM 2; LDBM 1; STAI 2; LDAP 2; BR 102; LABEL 2; LDAM 1; LDAI 1; STAM 2; LDAM 3; LDAI 2; LDBM 1; STAI
+   3; LDAM 2; LDBM 1; LDBI 3; ADD; STAM 2; LABEL 0; LDBM 1; LDAC 4; ADD; STAM 1; LDBI 4; BRB].
 Proof. vm_compute. reflexivity. Qed.
-Example demo_cproc_fd : cproc demo_pinfo demo_gaddr demo_pool p_fd 3 3 = Some
+Example demo_cproc_fd : cproc demo_pinfo demo_gaddr demo_aaddr demo_pool p_fd 3 3 = Some
   (* XCMP-LISTING fd *)
-  [LDBM 1; STAI 0; LDAC (-3); ADD; STAM 1; LDAI 5; BRZ 3; LDAC 0; BR 4; LABEL 3; LDAC 1; LABEL 4; BRZ 1; LDAC 7; BR 0;
-   BR 2; LABEL 1; LDAM 1; LDAI 5; LDBC 1; SUB; LDBM 1; STAI 2; LDAP 5; BR 102; LABEL 5; LDAM 1; LDAI 1; BR 0; LABEL 2;
-   LABEL 0; LDBM 1; STAI 4; LDAC 3; ADD; STAM 1; LDBI 3; BRB].
+  [LDBM 1; STAI 0; LDAC (-3); ADD; STAM 1; LDAI 5; BRZ 3; LDAC 0; BR 4; LABEL 3; LDAC 1; LABEL 4; BRZ 1; LDAC 7; BR
+   0; BR 2; LABEL 1; LDAM 1; LDAI 5; LDBC 1; SUB; LDBM 1; STAI 2; LDAP 5; BR 102; LABEL 5; LDAM 1; LDAI 1; BR 0; LABEL
+   2; LABEL 0; LDBM 1; STAI 4; LDAC 3; ADD; STAM 1; LDBI 3; BRB].
 Proof. vm_compute. reflexivity. Qed.
 
 (* ---- the image *)
 Definition demo_dirs : list directive :=
-  [DRef TBR "_start" true; DData 199997; DLabel LId "_g"; DData 0;
+  [DRef TBR "_start" true; DData 199993; DLabel LId "_g"; DData 0; DData 199996; DData 0;
    DLabel LId "_start"; DRef TLDAP "_exit" true; DRef TBR (lname 101) true;
    DLabel LId "_exit"; DImm TLDBM 1; DImm TLDAC 0; DImm TSTAI 2; DOpr TSVC] ++
   [DLabel LFunc "fd"; DLabel LId (lname 102)] ++ map dir_of (code_of p_fd L_fd) ++
@@ -116,14 +128,16 @@ Definition demo_dirs : list directive :=
   [DLabel LProc "main"; DLabel LId (lname 101)] ++ map dir_of (code_of p_main L_main).
 
 Definition demo_bytes : list Z :=
-  [155; 0; 0; 0; 61; 13; 3; 0; 0; 0; 0; 0; 82; 229; 155; 17; 48; 130; 211; 17; 128; 255; 61; 209; 33; 1; 101; 162; 48;
-   145; 49; 163; 55; 157; 156; 1; 101; 65; 210; 17; 130; 82; 254; 151; 1; 97; 144; 17; 132; 51; 209; 33; 115; 208; 17;
-   128; 255; 59; 209; 33; 1; 102; 227; 64; 209; 17; 132; 1; 100; 17; 130; 48; 17; 131; 49; 211; 1; 97; 2; 17; 118; 209;
-   34; 1; 102; 162; 48; 145; 49; 161; 153; 1; 102; 65; 210; 17; 129; 82; 253; 146; 17; 53; 209; 33; 117; 208; 17; 128;
-   255; 61; 209; 33; 48; 34; 51; 17; 129; 82; 251; 158; 2; 17; 130; 82; 249; 149; 1; 97; 34; 17; 51; 209; 33; 115; 208; 0].
+  [225; 146; 0; 0; 57; 13; 3; 0; 0; 0; 0; 0; 60; 13; 3; 0; 0; 0; 0; 0; 82; 230; 155; 17; 48; 130; 211; 17; 128; 255;
+   61; 209; 33; 1; 101; 162; 48; 145; 49; 163; 55; 157; 156; 1; 101; 65; 210; 17; 130; 82; 254; 151; 1; 97; 144; 17;
+   132; 51; 209; 33; 115; 208; 17; 128; 255; 58; 209; 33; 1; 103; 227; 64; 209; 17; 133; 1; 101; 17; 130; 48; 17; 131;
+   49; 211; 1; 97; 2; 17; 119; 209; 34; 1; 103; 17; 120; 209; 17; 132; 1; 101; 17; 116; 128; 1; 103; 162; 48; 145; 49;
+   161; 157; 1; 103; 65; 210; 17; 129; 1; 104; 17; 130; 82; 252; 146; 17; 54; 209; 33; 118; 208; 17; 128; 255; 60;
+   209; 33; 48; 34; 51; 17; 129; 3; 17; 130; 82; 250; 155; 2; 17; 130; 82; 248; 146; 1; 97; 34; 3; 98; 17; 131; 2; 17;
+   115; 209; 34; 17; 52; 209; 33; 116; 208; 0].
 Definition demo_labs : list (label * Z) :=
-  [(0, 100); (1, 91); (2, 100); (3, 88); (4, 89); (5, 100); (20, 129); (21, 120); (22, 126); (40, 47); (41, 35);
-   (42, 47); (43, 30); (44, 31); (45, 44); (100, 54); (101, 106); (102, 19)].
+  [(0, 124); (1, 111); (2, 124); (3, 108); (4, 109); (5, 124); (20, 165); (21, 147); (22, 153); (40, 55); (41, 43);
+   (42, 55); (43, 38); (44, 39); (45, 52); (100, 62); (101, 130); (102, 27)].
 Definition demo_label_names : list label := [0; 1; 2; 3; 4; 5; 20; 21; 22; 40; 41; 42; 43; 44; 45; 100; 101; 102].
 (* the assembler model lays the directives out as these bytes, with the labels there *)
 Lemma demo_assembled : exists o, assemble_directives demo_dirs [] = Ok o /\ ao_image o = demo_bytes /\
@@ -135,9 +149,10 @@ Fixpoint lookup (l : label) (t : list (label * Z)) : Z :=
 Definition demo_lab (l : label) : Z := lookup l demo_labs.
 Definition demo_m0 : WMap.t := mem_of demo_bytes.
 Definition demo_img : WMap.t := bytes_map demo_bytes.
-Definition demo_P (a : Z) : Prop := 3 <= a < 34.      (* the code words *)
+Definition demo_P (a : Z) : Prop := 5 <= a < 43.      (* the code words *)
 Definition demo_stack_lo : Z := 1000.
-Definition demo_maxframe : Z := 5.
+Definition demo_stack_hi : Z := 199996.   (* the root frame ends here; the array's cells follow *)
+Definition demo_maxframe : Z := 6.
 
 (* the image, run by the ISA from reset, shows the behaviour of the spec *)
 Lemma demo_image_runs : exists s, Isa.run 600 (boot (words_of_bytes demo_bytes)) {| console := []; files := fun _ => [] |} [] =
@@ -145,7 +160,7 @@ Lemma demo_image_runs : exists s, Isa.run 600 (boot (words_of_bytes demo_bytes))
 Proof. vm_compute. eexists. reflexivity. Qed.
 
 (* ---- the hypotheses of XCodegenCall.Prog *)
-Lemma demo_holds lo n : bytes_ok demo_m0 demo_img lo n = true -> 0 <= lo -> 12 <= lo -> lo + Z.of_nat n <= 136 ->
+Lemma demo_holds lo n : bytes_ok demo_m0 demo_img lo n = true -> 0 <= lo -> 20 <= lo -> lo + Z.of_nat n <= 172 ->
   forall m, C demo_P demo_m0 m -> holds m demo_img lo (lo + Z.of_nat n).
 Proof.
   intros Hb H0 Hlo Hhi. apply bytes_ok_holds; [exact Hb | exact H0|].
@@ -153,61 +168,61 @@ Proof.
 Qed.
 
 Lemma demo_code_fd : exists bc n', body_code p_fd L_fd = Some (bc, n') /\
-  code_at (C demo_P demo_m0) demo_lab 19 (pro 3 ++ bc ++ epif 40 3) 54.
+  code_at (C demo_P demo_m0) demo_lab 27 (pro 3 ++ bc ++ epif 40 3) 62.
 Proof.
   eexists. eexists. split; [vm_compute; reflexivity|].
-  apply (code_chk_sound (C demo_P demo_m0) _ demo_lab demo_img 19 54); [vm_compute; reflexivity | lia | unfold W; lia|].
-  change 54 with (19 + Z.of_nat 35). apply demo_holds; [vm_compute; reflexivity | lia | lia | cbn; lia].
+  apply (code_chk_sound (C demo_P demo_m0) _ demo_lab demo_img 27 62); [vm_compute; reflexivity | lia | unfold W; lia|].
+  change 62 with (27 + Z.of_nat 35). apply demo_holds; [vm_compute; reflexivity | lia | lia | cbn; lia].
 Qed.
 Lemma demo_code_cd : exists bc n', body_code p_cd L_cd = Some (bc, n') /\
-  code_at (C demo_P demo_m0) demo_lab 54 (pro 5 ++ bc ++ epi 0 5) 106.
+  code_at (C demo_P demo_m0) demo_lab 62 (pro 6 ++ bc ++ epi 0 6) 130.
 Proof.
   eexists. eexists. split; [vm_compute; reflexivity|].
-  apply (code_chk_sound (C demo_P demo_m0) _ demo_lab demo_img 54 106); [vm_compute; reflexivity | lia | unfold W; lia|].
-  change 106 with (54 + Z.of_nat 52). apply demo_holds; [vm_compute; reflexivity | lia | lia | cbn; lia].
+  apply (code_chk_sound (C demo_P demo_m0) _ demo_lab demo_img 62 130); [vm_compute; reflexivity | lia | unfold W; lia|].
+  change 130 with (62 + Z.of_nat 68). apply demo_holds; [vm_compute; reflexivity | lia | lia | cbn; lia].
 Qed.
 Lemma demo_code_main : exists bc n', body_code p_main L_main = Some (bc, n') /\
-  code_at (C demo_P demo_m0) demo_lab 106 (pro 3 ++ bc ++ epi 20 3) 135.
+  code_at (C demo_P demo_m0) demo_lab 130 (pro 4 ++ bc ++ epi 20 4) 171.
 Proof.
   eexists. eexists. split; [vm_compute; reflexivity|].
-  apply (code_chk_sound (C demo_P demo_m0) _ demo_lab demo_img 106 135); [vm_compute; reflexivity | lia | unfold W; lia|].
-  change 135 with (106 + Z.of_nat 29). apply demo_holds; [vm_compute; reflexivity | lia | lia | cbn; lia].
+  apply (code_chk_sound (C demo_P demo_m0) _ demo_lab demo_img 130 171); [vm_compute; reflexivity | lia | unfold W; lia|].
+  change 171 with (130 + Z.of_nat 41). apply demo_holds; [vm_compute; reflexivity | lia | lia | cbn; lia].
 Qed.
 
-Lemma demo_simple_cd : simple_proc demo_gaddr p_cd ["n"] ["t"].
+Lemma demo_simple_cd : simple_proc demo_gaddr demo_aaddr p_cd ["n"; "b"] ["t"].
 Proof.
-  split; [reflexivity|]. split; [reflexivity|]. split.
-  - constructor; [intros [H|[]]; discriminate H|]. constructor; [intros []|constructor].
-  - intros x [<-|[<-|[]]]; reflexivity.
+  split; [split; [reflexivity | intros f [<-|[<-|[]]]; [left | right]; reflexivity]|]. split; [reflexivity|]. split.
+  - constructor; [intros [H|[H|[]]]; discriminate H|]. constructor; [intros [H|[]]; discriminate H|]. constructor; [intros []|constructor].
+  - split; intros x [<-|[<-|[<-|[]]]]; reflexivity.
 Qed.
-Lemma demo_simple_main : simple_proc demo_gaddr p_main [] [].
-Proof. split; [reflexivity|]. split; [reflexivity|]. split; [constructor|]. intros x []. Qed.
-Lemma demo_simple_fd : simple_proc demo_gaddr p_fd ["k"] [].
+Lemma demo_simple_main : simple_proc demo_gaddr demo_aaddr p_main [] [].
+Proof. split; [split; [reflexivity | intros f []]|]. split; [reflexivity|]. split; [constructor|]. split; intros x []. Qed.
+Lemma demo_simple_fd : simple_proc demo_gaddr demo_aaddr p_fd ["k"] [].
 Proof.
-  split; [reflexivity|]. split; [reflexivity|]. split; [constructor; [intros []|constructor]|].
-  intros x [<-|[]]; reflexivity.
+  split; [split; [reflexivity | intros f [<-|[]]; left; reflexivity]|]. split; [reflexivity|]. split; [constructor; [intros []|constructor]|].
+  split; intros x [<-|[]]; reflexivity.
 Qed.
 
 (* every hypothesis of the call theorems holds for the demo *)
-Lemma demo_hyps : prog_hyps demo_ge demo_gaddr demo_pool demo_P demo_m0 demo_lab demo_pinfo demo_stack_lo demo_maxframe.
+Lemma demo_hyps : prog_hyps demo_ge demo_gaddr demo_aaddr demo_abase demo_alen demo_pool demo_P demo_m0 demo_lab demo_pinfo demo_stack_lo demo_stack_hi demo_maxframe.
 Proof.
-  unfold prog_hyps. split; [|split; [|split; [|split; [|split; [|split; [|split]]]]]].
+  unfold prog_hyps. split; [|split; [|split; [|split; [|split; [|split; [|split; [|split; [|split; [|split]]]]]]]]].
   - intros p pi Hp. unfold demo_pinfo in Hp.
     destruct (String.eqb p "cd") eqn:E1; [|destruct (String.eqb p "main") eqn:E2; [|destruct (String.eqb p "fd") eqn:E3; [|discriminate]]].
     + apply String.eqb_eq in E1. subst p. inversion Hp; subst pi. cbn [pf_isfunc pf_entry].
       split; [vm_compute; discriminate|].
       destruct demo_code_cd as (bc & n' & Hb & Hc).
-      exists p_cd, ["n"], ["t"], L_cd, bc, n', 106. split; [reflexivity|]. split; [reflexivity|].
+      exists p_cd, ["n"; "b"], ["t"], L_cd, bc, n', 130. split; [reflexivity|]. split; [reflexivity|].
       split; [exact demo_simple_cd|]. split; [vm_compute; repeat split; discriminate|]. split; [exact Hb|]. split; [exact Hc | reflexivity].
     + apply String.eqb_eq in E2. subst p. inversion Hp; subst pi. cbn [pf_isfunc pf_entry].
       split; [vm_compute; discriminate|].
       destruct demo_code_main as (bc & n' & Hb & Hc).
-      exists p_main, [], [], L_main, bc, n', 135. split; [reflexivity|]. split; [reflexivity|].
+      exists p_main, [], [], L_main, bc, n', 171. split; [reflexivity|]. split; [reflexivity|].
       split; [exact demo_simple_main|]. split; [vm_compute; repeat split; discriminate|]. split; [exact Hb|]. split; [exact Hc | reflexivity].
     + apply String.eqb_eq in E3. subst p. inversion Hp; subst pi. cbn [pf_isfunc pf_entry].
       split; [vm_compute; discriminate|].
       destruct demo_code_fd as (bc & n' & Hb & Hc).
-      exists p_fd, ["k"], [], L_fd, bc, n', 54. split; [reflexivity|]. split; [reflexivity|].
+      exists p_fd, ["k"], [], L_fd, bc, n', 62. split; [reflexivity|]. split; [reflexivity|].
       split; [exact demo_simple_fd|]. split; [vm_compute; repeat split; discriminate|]. split; [exact Hb|]. split; [exact Hc | reflexivity].
   - intros x a Hx. unfold demo_gaddr in Hx. destruct (String.eqb x "g") eqn:E; [|discriminate].
     apply String.eqb_eq in E. subst x. inversion Hx; subst a. unfold demo_P, demo_stack_lo.
@@ -224,68 +239,89 @@ Proof.
     + apply String.eqb_eq in E2. subst p. reflexivity.
     + apply String.eqb_eq in E3. subst p. reflexivity.
   - unfold demo_maxframe. lia.
+  - unfold demo_stack_hi, MEMW. lia.
+  - intros a w Ha. unfold demo_aaddr in Ha. destruct (String.eqb a "a") eqn:E; [|discriminate].
+    apply String.eqb_eq in E. subst a. inversion Ha; subst w.
+    change (demo_abase "a") with 199996. change (demo_alen "a") with 4. unfold demo_P, demo_stack_lo, demo_stack_hi.
+    split; [reflexivity|]. split; [lia|]. split; [lia|]. split; [lia|]. split.
+    + intros x g Hg. unfold demo_gaddr in Hg. destruct (String.eqb x "g"); [inversion Hg; lia | discriminate].
+    + intros i Hi. split; [unfold MEMW; lia | lia].
+  - intros a w a' w' i i' Ha Ha'. unfold demo_aaddr in Ha, Ha'.
+    destruct (String.eqb a "a") eqn:E; [|discriminate]. destruct (String.eqb a' "a") eqn:E'; [|discriminate].
+    apply String.eqb_eq in E. apply String.eqb_eq in E'. subst a a'. change (demo_abase "a") with 199996. intros _ _ Heq. split; [reflexivity | lia].
 Qed.
 
 (* ---- what the theorems say about the image: main's body, run from main's frame *)
-Definition demo_sp : Z := 199994.        (* main's frame: the initial stack pointer 199997 less main's 3 words *)
+Definition demo_sp : Z := 199989.        (* main's frame: the initial stack pointer 199993 less main's 4 words *)
 Definition demo_st0 : state :=
-  {| gvars := [("g", Vundef)]; garrs := []; out_rev := []; input := []; ncons := 0%nat; budget := 1000; cur := eff0;
+  {| gvars := [("g", Vundef)]; garrs := [("a", {| alen := 4; acells := PositiveMap.empty value |})];
+     out_rev := []; input := []; ncons := 0%nat; budget := 1000; cur := eff0;
      stk := [{| f_vars := []; f_vals := []; f_depth := 1 |}; {| f_vars := []; f_vals := []; f_depth := 0 |}] |}.
 Definition demo_m : WMap.t := wr demo_m0 1 demo_sp.
 
-Lemma demo_frame_main : frame_ok demo_gaddr demo_stack_lo demo_maxframe p_main [] [] L_main demo_sp.
+Lemma demo_frame_main : frame_ok demo_gaddr demo_aaddr demo_stack_lo demo_stack_hi demo_maxframe p_main [] [] L_main demo_sp.
 Proof.
   split; [exact demo_simple_main|]. split; [vm_compute; repeat split; discriminate|].
-  unfold demo_stack_lo, demo_sp, MEMW. cbn. lia.
+  unfold demo_stack_lo, demo_stack_hi, demo_sp, MEMW. cbn. lia.
 Qed.
 
-Lemma demo_rel : Rel demo_pinfo (Dq_of demo_ge demo_stack_lo demo_maxframe demo_sp) (frame_venv demo_gaddr p_main 3)
-                     demo_ge demo_P demo_m0 demo_sp demo_st0 demo_m.
+Lemma demo_rel : Rel demo_pinfo (Dq_of demo_ge demo_stack_lo demo_maxframe demo_sp) (frame_venv demo_gaddr p_main 4)
+                     (frame_aenv demo_aaddr p_main 4) (garr_of demo_aaddr) demo_abase demo_alen demo_ge demo_P demo_m0 demo_sp demo_st0 demo_m.
 Proof.
   split; [|split; [|split; [|split]]].
   - apply Cm_wr; [intros a _ _; reflexivity | lia | unfold demo_P; lia].
   - apply rd_wr_same.
-  - split.
+  - split; [split | split].
     + intros x a Hx. unfold frame_venv in Hx. cbn in Hx. unfold demo_gaddr in Hx.
       destruct (String.eqb x "g") eqn:E; [|discriminate]. apply String.eqb_eq in E. subst x. inversion Hx; subst a.
       split; [reflexivity|]. split; [reflexivity|]. split; [reflexivity|]. exists Vundef. split; [reflexivity | left; reflexivity].
     + intros x k Hx. unfold frame_venv in Hx. cbn in Hx. unfold demo_gaddr in Hx.
       destruct (String.eqb x "g"); discriminate.
+    + intros a l Hal. unfold frame_aenv in Hal. cbn in Hal. unfold demo_aaddr in Hal.
+      destruct (String.eqb a "a") eqn:E; [|discriminate]. apply String.eqb_eq in E. subst a. inversion Hal; subst l.
+      exists "a". split; [right; split; [reflexivity|]; split; [reflexivity|]; split; [discriminate | reflexivity]|].
+      split; [reflexivity|]. split; [vm_compute; reflexivity | intros; reflexivity].
+    + intros g Hg. unfold garr_of, demo_aaddr in Hg. destruct (String.eqb g "a") eqn:E; [|discriminate]. apply String.eqb_eq in E. subst g.
+      split; [reflexivity|]. split; [reflexivity|]. exists {| alen := 4; acells := PositiveMap.empty value |}.
+      split; [reflexivity|]. split; [reflexivity|].
+      intros i n _ Hf. cbn [acells] in Hf. rewrite PositiveMap.gempty in Hf. discriminate Hf.
   - split; [discriminate|]. intros p pi _. reflexivity.
   - unfold Dq_of, demo_stack_lo, demo_maxframe, demo_sp. cbn. lia.
 Qed.
 
-(* main's body sits at bytes [112, 129) of the image *)
-Lemma demo_body_main : exists bc n', body_code p_main L_main = Some (bc, n') /\ code_at (C demo_P demo_m0) demo_lab 112 bc 129.
+(* main's body sits at bytes [136, 165) of the image *)
+Lemma demo_body_main : exists bc n', body_code p_main L_main = Some (bc, n') /\ code_at (C demo_P demo_m0) demo_lab 136 bc 165.
 Proof.
   eexists. eexists. split; [vm_compute; reflexivity|].
-  apply (code_chk_sound (C demo_P demo_m0) _ demo_lab demo_img 112 129); [vm_compute; reflexivity | lia | unfold W; lia|].
-  change 129 with (112 + Z.of_nat 17). apply demo_holds; [vm_compute; reflexivity | lia | lia | cbn; lia].
+  apply (code_chk_sound (C demo_P demo_m0) _ demo_lab demo_img 136 165); [vm_compute; reflexivity | lia | unfold W; lia|].
+  change 165 with (136 + Z.of_nat 29). apply demo_holds; [vm_compute; reflexivity | lia | lia | cbn; lia].
 Qed.
 
-(* The theorem applied: from main's frame (stack pointer word = 199994, g not yet assigned), the ISA runs the code
-   of main's body `g := 0; cd(3); g := fd(g)` -- four activations of the procedure cd, each with prologue, output,
-   recursive call and epilogue, then seven activations of the function fd, each returning its result through the
-   caller's outgoing word -- to the end of that code, emitting exactly the bytes "3210" on stream 0; the stack
-   pointer word is 199994 again and g's word holds 7 (= fd(6)). *)
+(* The theorem applied: from main's frame (stack pointer word = 199989, g not yet assigned, nothing in the array),
+   the ISA runs the code of main's body `g := 0; cd(3, a); g := fd(g); g := g + a[2]` -- four activations of the
+   procedure cd, each with prologue, output, an assignment to an element of the global array through the array
+   formal b (whose frame word holds the address of a's cells), recursive call handing b on, and epilogue, then seven activations of the function fd, each returning its result through the caller's outgoing
+   word, then a read of the array -- to the end of that code, emitting exactly the bytes "3210" on stream 0; the
+   stack pointer word is 199989 again, g's word holds 57 (= fd(6) + a[2] = 7 + 50) and the cell of a[2] holds 50. *)
 Theorem demo_main_body_runs : forall a b inp, exists a' b' m',
-  runs inp (mk 112 a b 0 demo_m) [Write 51 0; Write 50 0; Write 49 0; Write 48 0] inp (mk 129 a' b' 0 m') /\
-  rd m' 1 = 199994 /\ rd m' 2 = 7.
+  runs inp (mk 136 a b 0 demo_m) [Write 51 0; Write 50 0; Write 49 0; Write 48 0] inp (mk 165 a' b' 0 m') /\
+  rd m' 1 = 199989 /\ rd m' 2 = 57 /\ rd m' 199998 = 50.
 Proof.
   intros a b inp.
-  destruct demo_hyps as (H1 & H2 & H3 & H4 & H5 & H6 & H7 & H8).
-  pose proof (stmt_calls_closed demo_ge demo_gaddr demo_pool demo_P demo_m0 demo_lab demo_pinfo demo_stack_lo
-                demo_maxframe H1 H2 H3 H4 H5 H6 H7 H8 100%nat p_main [] [] L_main demo_sp demo_frame_main) as Hok.
+  destruct demo_hyps as (H1 & H2 & H3 & H4 & H5 & H6 & H7 & H8 & H9 & H10 & H11).
+  pose proof (stmt_calls_closed demo_ge demo_gaddr demo_aaddr demo_abase demo_alen demo_pool demo_P demo_m0 demo_lab demo_pinfo demo_stack_lo
+                demo_stack_hi demo_maxframe H1 H2 H3 H4 H5 H6 H7 H8 H9 H10 H11 100%nat p_main [] [] L_main demo_sp demo_frame_main) as Hok.
   destruct demo_body_main as (bc & n' & Hb & Hc).
   assert (He : exists st', exec 100 demo_ge (body p_main) demo_st0 = Ret Normal st' /\
-                           out_rev st' = [(0, 48); (0, 49); (0, 50); (0, 51)] /\ assoc "g" (gvars st') = Some (Vint 7)).
-  { vm_compute. eexists. split; [reflexivity|]. split; reflexivity. }
-  destruct He as (st' & He & Hout & Hg).
+                           out_rev st' = [(0, 48); (0, 49); (0, 50); (0, 51)] /\ assoc "g" (gvars st') = Some (Vint 57) /\
+                           exists ar, assoc "a" (garrs st') = Some ar /\ PositiveMap.find (cell 2) (acells ar) = Some (Vint 50)).
+  { vm_compute. eexists. split; [reflexivity|]. split; [reflexivity|]. split; [reflexivity|]. eexists. split; reflexivity. }
+  destruct He as (st' & He & Hout & Hg & ar & Har & Hcl).
   assert (Hx : 0 <= demo_lab (pl_exit L_main) < W) by (vm_compute; split; [discriminate | reflexivity]).
   destruct (stmt_normal demo_pinfo (Fr_of demo_stack_lo demo_sp) (Dq_of demo_ge demo_stack_lo demo_maxframe demo_sp)
-              (frame_venv demo_gaddr p_main (pl_size L_main)) demo_pool (pl_size L_main) (pl_nslots L_main)
-              (first_temp p_main) (pl_og L_main) (pl_exit L_main) demo_ge demo_P demo_m0 demo_lab demo_sp 100%nat Hok
-              (body p_main) (pl_n0 L_main) bc n' demo_st0 st' Hb He demo_m 112 129 a b inp
+              (frame_venv demo_gaddr p_main (pl_size L_main)) (frame_aenv demo_aaddr p_main (pl_size L_main)) (garr_of demo_aaddr) demo_abase demo_alen demo_pool
+              (pl_size L_main) (pl_nslots L_main) (first_temp p_main) (pl_og L_main) (pl_exit L_main) demo_ge demo_P demo_m0 demo_lab demo_sp
+              100%nat Hok (body p_main) (pl_n0 L_main) bc n' demo_st0 st' Hb He demo_m 136 165 a b inp
               demo_rel Hc ltac:(lia) ltac:(unfold W; lia) Hx)
     as (outs & a' & b' & m' & R & HR' & Hpost & _).
   exists a', b', m'.
@@ -293,32 +329,37 @@ Proof.
   assert (Houts : outs = [(0, 51); (0, 50); (0, 49); (0, 48)]).
   { rewrite <- (rev_involutive outs), <- P1. reflexivity. }
   subst outs. split; [exact R|].
-  destruct HR' as (_ & S1 & (HVg & _) & _). split; [exact S1|].
-  destruct (HVg "g" 2 eq_refl) as (_ & _ & _ & v & Hv & Hval). rewrite Hg in Hv. inversion Hv; subst v.
-  destruct Hval as [Hu|(z & Hz & _ & Hw)]; [discriminate|]. inversion Hz; subst z. rewrite Hw. reflexivity.
+  destruct HR' as (_ & S1 & ((HVg & _) & (_ & HVa)) & _). split; [exact S1|]. split.
+  - destruct (HVg "g" 2 eq_refl) as (_ & _ & _ & v & Hv & Hval). rewrite Hg in Hv. inversion Hv; subst v.
+    destruct Hval as [Hu|(z & Hz & _ & Hw)]; [discriminate|]. inversion Hz; subst z. rewrite Hw. reflexivity.
+  - destruct (HVa "a" eq_refl) as (_ & _ & ar' & Har' & Hl & Hcells). rewrite Har in Har'. inversion Har'; subst ar'.
+    assert (Hr : 0 <= 2 < alen ar) by (rewrite Hl; change (demo_alen "a") with 4; lia).
+    destruct (Hcells 2 50 Hr Hcl) as [_ Hw]. exact Hw.
 Qed.
 
 (* ---------------------------------------------------------------- the demo through model_compile (XCodegenProgram.v) *)
-Definition demo_frames (x : string) : option (Z * Z * Z) :=      (* size, usable slots, outgoing words: xcmp's numbers *)
-  if String.eqb x "cd" then Some (5, 1, 4) else if String.eqb x "main" then Some (3, 0, 3)
-  else if String.eqb x "fd" then Some (3, 0, 3) else None.
+Definition demo_frames : params :=      (* size, usable slots, outgoing words: xcmp's numbers; no pool constants *)
+  {| p_frames := fun x => if String.eqb x "cd" then Some (6, 2, 4) else if String.eqb x "main" then Some (4, 1, 3)
+                          else if String.eqb x "fd" then Some (3, 0, 3) else None;
+     p_pool := [] |}.
 
 (* opt = true: the image with the peephole pass; tools/c01.py re-checks this list against the words of the binary the
    real xcmp writes for the X source above *)
 Example demo_model_image_opt : model_compile demo_frames true demo = Some
   (* XCMP-IMAGE *)
-  [159; 199997; 0; 0; 295167314; 299074096; 3510501248; 815949089; 933441937; 1694604445; 2182206017; 26803794;
-   2215743585; 1931596083; 4286583248; 1713492283; 298926307; 813830532; 3543237393; 285368577; 19059062; 2435883622;
-   26845489; 298991974; 2516406913; 567358737; 2148651125; 567361023; 288563760; 2449232513; 1384255746; 1627494905;
-   3509784866; 13660961].
+  [37601; 199993; 0; 199996; 0; 295167570; 299074096; 3510501248; 815949089; 933441937; 1694604445; 2182206017;
+   26803794; 2215743585; 1931596083; 4286583248; 1730269498; 298926307; 813830533; 3543237393; 285368577; 19059063;
+   3514306919; 1694598161; 25195537; 2435883623; 27107633; 298991975; 292028801; 2516341378; 567358993; 2148651126;
+   567360767; 288563760; 2182153089; 43973202; 4166156817; 576782742; 2198954499; 3513979138; 3509850402; 13661217].
 Proof. vm_compute. reflexivity. Qed.
 
 (* opt = false: the validated image of the lowered code, the one program_correct speaks of *)
 Definition demo_image : list Z :=
-  [159; 199997; 0; 0; 295429458; 299074096; 3510501248; 2724528417; 2737934640; 27041079; 298991973; 2550026882;
-   294674689; 567358340; 2148651123; 567360511; 1088644609; 25432529; 813830500; 3543237393; 285368577; 19059062;
-   2435883622; 26845489; 298991974; 2466075265; 567358737; 2148651125; 567361023; 288563760; 2667270785; 1384255746;
-   1627493881; 3509784866; 13660961].
+  [37601; 199993; 0; 199996; 0; 295429714; 299074096; 3510501248; 2724528417; 2737934640; 27041079; 298991973;
+   2550026882; 294674689; 567358340; 2148651123; 567360255; 1088644865; 25498065; 813830501; 3543237393; 285368577;
+   19059063; 3514306919; 1694598161; 25195537; 2435883623; 27107633; 298991975; 292028801; 2466009730; 567358993;
+   2148651126; 567360767; 288563760; 2182153089; 43776594; 4166156817; 576782738; 2198954499; 3513979138; 3509850402;
+   13661217].
 Lemma demo_model_image : model_compile demo_frames false demo = Some demo_image.
 Proof. vm_compute. reflexivity. Qed.
 
